@@ -25,7 +25,7 @@ META = {
     'rule': ('cases: the standard context stream (reduced) plus a size sweep (chains, contranominal '
              'scales, random 30x15; lattices from 1 to ~1 500 (quick) / ~4 000 (thorough) concepts) x '
              'media {dict, JSON via str path / bytes path / PathLike / file object with indent and '
-             'sort_keys variants, python-literal string and file, pickle protocols 2-5 of context, '
+             'sort_keys variants, python-literal string and file, pickle protocols 0-5 of context, '
              'lattice, (context, lattice) and single concepts} x {lattice present, absent, lazily '
              'absent} x {ordered, raw=True with a permuted stored list}; pickles are also loaded in '
              'fresh interpreters with other PYTHONHASHSEED values; hostile history: two pre-forked '
@@ -310,7 +310,7 @@ def run_same_labels(concepts, case, spec):
         if ctx is RAISED:
             return
         obj = ctx if k % 2 == 0 else (ctx, call(lambda: ctx.lattice))
-        blobs.append(pickle.dumps(obj, protocol=rng.choice([2, 4, 5])))
+        blobs.append(pickle.dumps(obj, protocol=rng.choice([0, 1, 2, 4, 5])))
         shadows.append(sh)
         if k % 2:
             alive.append((ctx, sh))         # stays alive while the pickles of discarded ones are loaded
@@ -500,9 +500,14 @@ def run_case(concepts, case, spec):
     if rng.random() < .03 or case.get('sweep'):
         COL.sample({'fam': case['fam'], 'shape': [sh.n, sh.m], 'n_concepts': sl.n})
     # lazily absent lattice ---------------------------------------------------
+    had_lattice = 'lattice' in vars(ctx)        # a context that came through a persistence route (via) may carry one
     d_lazy = call(ctx.todict, None)
     d_none = call(ctx.todict, True)
-    if d_lazy is not RAISED and 'lattice' in d_lazy:
+    if had_lattice:
+        COL.count('lazy_todict_on_context_that_already_has_a_lattice')
+        if d_lazy is not RAISED and 'lattice' not in d_lazy:
+            COL.violation('driver', 'todict:lazy-lattice-omitted-although-it-was-computed', 'lattice key', 'no lattice key')
+    elif d_lazy is not RAISED and 'lattice' in d_lazy:
         COL.violation('driver', 'todict:lazy-lattice-included-before-it-was-computed', 'no lattice key', 'lattice key')
     c0 = call(C.fromdict, copy.deepcopy(d_none)) if d_none is not RAISED else RAISED
     same_triple('fromdict-without-lattice', c0, sh)
@@ -590,7 +595,7 @@ def run_case(concepts, case, spec):
             if same_triple('deepcopy-pair', c2, sh):
                 with core.monitor_code():
                     judge_lattice(l2, c2, sh, cap, 'deepcopied', scratch)
-    for proto in ([2, 3, 4, 5] if sl.n <= 60 else [rng.choice([2, 3, 4, 5])]):
+    for proto in ([0, 1, 2, 3, 4, 5] if sl.n <= 60 else [rng.choice([0, 1, 2, 3, 4, 5])]):
         COL.count('medium_pickle')
         for what, obj in (('context', ctx), ('pair', (ctx, lat)), ('lattice', lat)):
             try:
